@@ -107,6 +107,8 @@ pub fn vclock_table(out: &mut String, rng: &mut Rng, max: u64, random: usize) {
         let d3 = format!("{}.{}", rng.below(3), rng.below(4));
         writeln!(out, "F dot.cmp {d2} {d3}").unwrap();
         writeln!(out, "F dot.inc {d2}").unwrap();
+        writeln!(out, "F dot.eq {d2} {d3}").unwrap();
+        writeln!(out, "F dot.eq {d2} {d2}").unwrap();
     }
 }
 
